@@ -42,7 +42,8 @@ def cases(tier, seed):
             ('nfl', [2, 3, 4, 11]), ('cluster', ['all', 'one']), ('wbname', ['experiment', 'cells', 'samples.x', 'xls', 'Tables 2020-01']),
             ('ids', ['text', 'numbers', 'dotted']), ('hdr', ['plain', 'blanks']),
             ('paths', ['relative', 'absolute', 'plain-relative']),         # File Path cells: ./FCFiles/x.fcs, /abs/.../FCFiles/x.fcs, FCFiles/x.fcs
-            ('mefnone', [False, True])]                                    # a manufacturer value given as None (documented: that population is ignored)
+            ('mefnone', [False, True]),
+            ('dirname', ['plain', 'braces', 'percent'])]                   # the workbook's directory is called e.g. 'plate{A} run{0} {}' or '100%s done %d'                                    # a manufacturer value given as None (documented: that population is ignored)
     if tier == 'quick':
         cfgs = [dict(ninst=1, nbeads=1, nsamples=2, units='mixed', cont='int', plot=True, hist=True, outpath='default', nfl=2, cluster='all'),
                 dict(ninst=1, nbeads=1, nsamples=1, units='all-mef', cont='int', plot=True, hist=False, outpath='explicit', nfl=3, cluster='all'),
@@ -61,6 +62,8 @@ def cases(tier, seed):
                 dict(ninst=1, nbeads=1, nsamples=2, units='mixed', cont='int', plot=True, hist=True, outpath='default', nfl=2, cluster='all', paths='absolute'),
                 dict(ninst=2, nbeads=2, nsamples=2, units='all-mef', cont='int', plot=False, hist=False, outpath='explicit', nfl=2, cluster='all', paths='plain-relative', mefnone=True),
                 dict(ninst=1, nbeads=1, nsamples=1, units='all-mef', cont='int', plot=True, hist=True, outpath='default', nfl=3, cluster='one', mefnone=True),
+                dict(ninst=1, nbeads=1, nsamples=2, units='mixed', cont='int', plot=True, hist=True, outpath='default', nfl=2, cluster='all', dirname='braces'),
+                dict(ninst=1, nbeads=1, nsamples=1, units='mixed', cont='int', plot=True, hist=False, outpath='explicit', nfl=2, cluster='all', dirname='percent'),
                 dict(ninst=1, nbeads=1, nsamples=2, units='mixed', cont='int', plot=False, hist=True, outpath='default', nfl=3, cluster='all', hdr='blanks')]
     else:
         cfgs = list(explore.deviations(dims, 1)) + [c for c in explore.deviations(dims, 2) if c['_dev'] == 2 and c['plot'] and (c['nfl'] == 3 or c['hist'])]
@@ -325,15 +328,12 @@ def check_output(res, sig, what, inp, outp, d, plot, hist, one, bead_ids_channel
                 if units_channel(c_) and isinstance(srow[c_], str):
                     want_rows += [(srow['ID'], units_channel(c_), 'Bin Centers'), (srow['ID'], units_channel(c_), 'Counts')]
         hc = list(h.columns[:3])
-        got_rows, last = [], [None, None]
+        got_rows = []
         for _, hr in h.iterrows():
+            # every row carries its own identifiers (sample, channel, kind) in its first three cells -- a cell left empty because the row
+            # above holds the same value is not an identifier
             sid_, ch_ = hr[hc[0]], hr[hc[1]]
-            if sid_ != sid_ or sid_ is None:
-                sid_ = last[0]
-            if ch_ != ch_ or ch_ is None:
-                ch_ = last[1]
-            last = [sid_, ch_]
-            got_rows.append((sid_, ch_, str(hr[hc[2]]).split(' (')[0]))
+            got_rows.append((None if sid_ != sid_ else sid_, None if ch_ != ch_ else ch_, str(hr[hc[2]]).split(' (')[0]))
         if got_rows != want_rows:
             k_ = next((i for i, (a_, b_) in enumerate(zip(got_rows, want_rows)) if a_ != b_), min(len(got_rows), len(want_rows)))
             res.violation(sig + ':histogram-order', '%s: row %d of the Histograms sheet is %r, the Samples sheet order asks for %r' % (
@@ -410,6 +410,9 @@ def run_case(c):
             res.sample({'sequence of analyses': [x['plot'] for x in c['cfgs']]})
         elif k == 'run':
             cfg = c['cfg']
+            if cfg.get('dirname', 'plain') != 'plain':
+                d = os.path.join(d, {'braces': 'plate{A} run{0} {}', 'percent': '100%s done %d %'}[cfg['dirname']])
+                os.makedirs(d, exist_ok=True)
             with warnings.catch_warnings():
                 warnings.simplefilter('ignore')
                 wb, insts, beads, samples, mcols, ucols = build(cfg, d)
